@@ -12,7 +12,7 @@ EXTENDS ValueMachine, StrEnv, Json, SequencesExt
 
 CONSTANTS Tier
 
-MaxLen == IF Tier = "quick" THEN 2 ELSE 3
+MaxLen == IF Tier \in {"quick", "c07"} THEN 2 ELSE 3
 
 Strings == UNION {[1..n -> Sigma] : n \in 0..MaxLen}
 
@@ -51,12 +51,12 @@ RuleSets ==
      a \in AtMostOne({NE}), b \in AtMostOne({MinR(n, "lit") : n \in Lens}),
      c \in AtMostOne({MaxR(n, "lit") : n \in Lens}), e \in AtMostOne({PredA}), f \in AtMostOne({ReLower, ReHasA})}
 
-MaxRules == IF Tier = "quick" THEN 2 ELSE 3
+MaxRules == IF Tier = "c07" THEN 5 ELSE IF Tier = "quick" THEN 2 ELSE 3
 ValSeqs == UNION {Perms(S) : S \in {T \in RuleSets : T # {} /\ Cardinality(T) <= MaxRules}}
 
 \* ---- sanitizers: every order of every subset of {trim, lowercase | uppercase, one custom}
 San(k, fn) == [k |-> k, fn |-> fn, p |-> <<>>]
-Customs == IF Tier = "quick" THEN {San("with", "bang")} ELSE {San("with", "bang"), San("with", "rev"), San("with", "take2")}
+Customs == IF Tier \in {"quick", "c07"} THEN {San("with", "bang")} ELSE {San("with", "bang"), San("with", "rev"), San("with", "take2")}
 SanSets == {a \cup b \cup c : a \in AtMostOne({San("trim", "")}),
                               b \in AtMostOne({San("lowercase", ""), San("uppercase", "")}),
                               c \in AtMostOne(Customs)}
@@ -81,6 +81,9 @@ CustomVals == {<<[k |-> "custom", b |-> 0, fn |-> "short", p |-> <<>>, sp |-> "l
 \* the full sanitizer space with the one- and two-rule validator lists; the
 \* built-in sanitizer orders with every validator list
 DeclSpace ==
+  IF Tier = "c07"    \* C07 slice: every permutation of four and five validators (the full built-in set)
+  THEN {Decl(<<San("trim", "")>>, "std", val, dflt) : val \in {v \in ValSeqs : Len(v) >= 4}, dflt \in Defaults}
+  ELSE
   {Decl(san, "std", val, dflt) : san \in SanSeqs, val \in {v \in ValSeqs : Len(v) <= 1}, dflt \in Defaults}
   \cup {Decl(san, "std", val, dflt) : san \in BuiltinSanSeqs, val \in ValSeqs, dflt \in Defaults}
   \cup {Decl(san, "none", <<>>, dflt) : san \in SanSeqs, dflt \in Defaults}
@@ -104,7 +107,6 @@ EmitDecl == (pc = "idle") => PrintT(<<"DECL", di, ToJson(D)>>)
 
 \* C11 on the model: with built-in sanitizers only, a stored value is a fixed
 \* point of the sanitizer chain and is accepted again (given std's tables)
-Builtin(d) == d.vmode # "custom" /\ \A i \in DOMAIN d.san : d.san[i].k # "with"
 Canonical ==
   (Done /\ IsOk(out) /\ Builtin(D)) =>
      DeclCtor(D, OutVal(out), MEnv, CodeNanPolicy) = OkOut(OutVal(out))
